@@ -89,6 +89,15 @@ Definition posix_observe (r : posix) (u : Z) : Z * Z * list Z :=
       else (r.(p_off), 0, r.(p_name))
   end.
 
+(* the PEP 495 fold flag of the local reading of instant u: 1 iff u is the LATER of two instants
+   showing the same wall reading, i.e. standard time is in force at u and daylight time was in
+   force one saving earlier *)
+Definition posix_fold (r : posix) (u : Z) : bool :=
+  match r.(p_dst) with
+  | None => false
+  | Some ds => negb (posix_isdst r u) && posix_isdst r (u - (ds.(d_off) - r.(p_off)))
+  end.
+
 (* wall reading w: the UTC instants that display w *)
 Definition wall_candidates (r : posix) (w : Z) : list Z :=
   match r.(p_dst) with
